@@ -91,7 +91,11 @@ func loadArrangementPeek(texts []string, peek bool) (root *ggql.Root, failedAt i
 	return root, -1, nil, nil
 }
 
-var c16Requests = []string{"{__typename}", introspectionQuery, introspectionQueryNoDep, `{__type(name: "T0") {name kind fields {name type {name kind}}}}`, `{__type(name: "E0") {enumValues {name}}}`, "{a b c}"}
+// c16Ordered: requests whose answer is compared as it is, order included (ggql.Sort is on: the type and
+// directive tables are kept sorted by rank and name however the definitions arrived)
+var c16Ordered = map[string]bool{"{__schema{types{name} directives{name}}}": true}
+
+var c16Requests = []string{"{__schema{types{name} directives{name}}}", "{__typename}", introspectionQuery, introspectionQueryNoDep, `{__type(name: "T0") {name kind fields {name type {name kind}}}}`, `{__type(name: "E0") {enumValues {name}}}`, "{a b c}"}
 
 func observe(root *ggql.Root) (desc string, answers []string, pan interface{}) {
 	defer func() {
@@ -104,6 +108,10 @@ func observe(root *ggql.Root) (desc string, answers []string, pan interface{}) {
 		res := root.ResolveString(q, "", nil)
 		// error messages may mention positions of definitions: compare data and error paths
 		delete(res, "errors")
+		if c16Ordered[q] {
+			answers = append(answers, hx.Show(hx.Norm(res)))
+			continue
+		}
 		answers = append(answers, sortedCanon(res))
 	}
 	return
